@@ -62,8 +62,14 @@ def run(pid, tier, replay, prefixes, models, gens, level_rule, keyfn=None, extra
     if replay:
         scripts = [json.dumps(json.load(open(replay))["detail"]["script"])]
     else:
-        for mod, cfg in gens:
-            out = vlib.tlc(mod, cfg=cfg, wd=wd, workers=4, timeout=3000)
+        for g in gens:
+            mod, cfg = g[0], g[1]
+            # a third element selects TLC's simulation mode: long random behaviours of a state-aware generator instead of exhaustive enumeration
+            sim = g[2] if len(g) > 2 else None
+            if sim:
+                out = vlib.tlc(mod, cfg=cfg, wd=wd, workers=1, timeout=3000, simulate=sim["num"], depth=sim["depth"], seed_=sim.get("seed"))
+            else:
+                out = vlib.tlc(mod, cfg=cfg, wd=wd, workers=4, timeout=3000)
             got = vlib.printed(out, "SCRIPT")
             if not got:
                 raise vlib.ToolError("%s produced no scripts" % mod)
@@ -129,7 +135,7 @@ def run(pid, tier, replay, prefixes, models, gens, level_rule, keyfn=None, extra
             if x["sc"] != sc:
                 break
             trace.append(x)
-        verdict.fail(key, {"clause": clause, "detail": detail, "trace_line": line, "script": script, "trace": trace[:400]})
+        verdict.fail(key, {"clause": clause, "detail": detail, "trace_line": line, "row_in_script": line - a, "script": script, "trace": trace[:400]})
     # vacuity is a tool error, but never hides a violation that was found
     if not replay and not per_script:
         for name in require_stats:
@@ -149,6 +155,21 @@ def run(pid, tier, replay, prefixes, models, gens, level_rule, keyfn=None, extra
                         "frame parsing / payload identification in the harness is trusted transcription"],
     }
     verdict.finish(ev)
+
+
+MIX_RULE = ("; plus long mixed histories sampled by TLC's simulation mode from MixGen.tla (a sane peer and application on two sending links and one receiving link of one session: "
+            "sends of 1-8 frames, session flows with windows 0-50, link flows with grants / drain / echo / unset delivery-count that also move the session window, dispositions over ranges, "
+            "incoming deliveries of 1-3 frames incl. aborted ones kept within the credit the endpoint issued, recv / single and batch disposals / set_credit / drain, "
+            "settling dispositions of the sender, cancelled calls, close and re-attach; settle modes, windows, credit policy, id spaces next to 2^32, channel capacities and "
+            "max-message-size drawn per script), client and listener side")
+
+
+def mix_gens(pid, tier):
+    """Two MixGen configurations (client / listener) in simulation mode; the seed differs per property so that the checks sample different histories."""
+    base = vlib.seed() * 1000 + int(pid[1:])
+    n = 1500 if tier == "thorough" else 120
+    return [("endpoint/MixGen", "endpoint/MixGen_c.cfg", {"num": n, "depth": 63, "seed": base}),
+            ("endpoint/MixGen", "endpoint/MixGen_l.cfg", {"num": n, "depth": 63, "seed": base + 500})]
 
 
 def default_key(clause, detail, r, rows, line):
